@@ -5,7 +5,7 @@
 use crate::core::*;
 use crate::model::*;
 use crate::prng::Prng;
-use crate::udp_store::{host_ip, info_hash, peer_id};
+use crate::udp_store::{canon_ip, info_hash, peer_id, src_ip};
 use aquatic_common::access_list::{AccessList, AccessListArcSwap, AccessListMode};
 use aquatic_common::{CanonicalSocketAddr, ServerStartInstant, ValidUntil};
 use aquatic_http::config::Config;
@@ -24,8 +24,8 @@ const INLINE: usize = 4;
 
 #[derive(Clone, Debug, Serialize, Deserialize, PartialEq)]
 pub enum Op {
-    Ann { t: u8, v6: bool, h: u16, port: u16, ev: u8, left: u64, want: Option<u64>, pid: u8 },
-    Scr { v6: bool, ts: Vec<u8> },
+    Ann { t: u8, v6: bool, #[serde(default)] ac: u8, h: u16, port: u16, ev: u8, left: u64, want: Option<u64>, pid: u8 },
+    Scr { v6: bool, #[serde(default)] ac: u8, ts: Vec<u8> },
     Clean,
     Adv { secs: u64 },
 }
@@ -139,10 +139,17 @@ impl<'a> Exec<'a> {
     }
 
     #[allow(clippy::too_many_arguments)]
-    fn do_announce(&mut self, t: u8, v6: bool, h: u16, port: u16, ev: u8, left: u64, want: Option<u64>, pid: u8, stats: &mut Stats, probe: bool) {
+    fn do_announce(&mut self, t: u8, v6: bool, ac: u8, h: u16, port: u16, ev: u8, left: u64, want: Option<u64>, pid: u8, stats: &mut Stats, probe: bool) {
         let ih = info_hash(t);
-        let ip = host_ip(v6, h);
+        let raw_ip = src_ip(v6, ac, h);
+        let ip = canon_ip(raw_ip);
+        let v6 = ip.is_ipv6();
         let fam = if v6 { Fam::V6 } else { Fam::V4 };
+        if raw_ip != ip {
+            stats.probe("ipv4-mapped-source");
+        } else if matches!(raw_ip, IpAddr::V6(a) if a.octets()[..12].iter().all(|b| *b == 0)) {
+            stats.probe("low-ipv6-source");
+        }
         let key: Key = (ip, port);
         let event = event_of(ev);
         let stopped = matches!(event, AnnounceEvent::Stopped);
@@ -160,7 +167,7 @@ impl<'a> Exec<'a> {
             numwant: want.map(|w| w as usize),
             key: None,
         };
-        let src = CanonicalSocketAddr::new(SocketAddr::new(ip, 1024 + (h % 50000)));
+        let src = CanonicalSocketAddr::new(SocketAddr::new(raw_ip, 1024 + (h % 50000)));
         let size_before = self.model.size(fam, &ih);
         let start = self.start;
         let age = self.scn.max_peer_age;
@@ -202,7 +209,7 @@ impl<'a> Exec<'a> {
             fold(&mut self.transcript, p.1 as u64);
         }
         if other != 0 {
-            self.fail(&["C02", "C07"], "peers-same-family", "peers-same-family", format!("announce from {:?} got {} peers of the other address family", ip, other));
+            self.fail(&["C02", "C07", "C03"], "peers-same-family", "peers-same-family", format!("announce from source {:?} (canonical {:?}) got {} peers of the other address family", raw_ip, ip, other));
         }
         if resp.complete != view.seeders || resp.incomplete != view.leechers {
             let sig = if size_before > INLINE { "counts-heap" } else { "counts-inline" };
@@ -246,10 +253,11 @@ impl<'a> Exec<'a> {
         }
     }
 
-    fn do_scrape(&mut self, v6: bool, ts: &[u8], stats: &mut Stats, props: &[&str], check: &str) {
-        let fam = if v6 { Fam::V6 } else { Fam::V4 };
+    fn do_scrape(&mut self, v6: bool, ac: u8, ts: &[u8], stats: &mut Stats, props: &[&str], check: &str) {
+        let raw_ip = src_ip(v6, ac, 999);
+        let fam = Fam::of(&canon_ip(raw_ip));
         let req = ScrapeRequest { info_hashes: ts.iter().map(|t| InfoHash(info_hash(*t))).collect() };
-        let src = CanonicalSocketAddr::new(SocketAddr::new(host_ip(v6, 999), 5000));
+        let src = CanonicalSocketAddr::new(SocketAddr::new(raw_ip, 5000));
         let cfg = self.config.clone();
         let resp = self.maps.handle_scrape_request(&cfg, src, req);
         stats.evaluations += 1;
@@ -301,7 +309,7 @@ impl<'a> Exec<'a> {
             }
             for v6 in [false, true] {
                 if self.violations.is_empty() {
-                    self.do_scrape(v6, c, stats, props, check);
+                    self.do_scrape(v6, if v6 { (c.len() % 3) as u8 } else { 0 }, c, stats, props, check);
                 }
             }
         }
@@ -376,8 +384,8 @@ impl<'a> Exec<'a> {
                 if !self.violations.is_empty() {
                     return;
                 }
-                self.do_announce(t, v6, 60000, 9, 1, 1, Some(u32::MAX as u64), 250, stats, true);
-                self.do_announce(t, v6, 60000, 9, 3, 1, None, 250, stats, true);
+                self.do_announce(t, v6, 0, 60000, 9, 1, 1, Some(u32::MAX as u64), 250, stats, true);
+                self.do_announce(t, v6, 0, 60000, 9, 3, 1, None, 250, stats, true);
             }
         }
     }
@@ -409,7 +417,7 @@ impl Harness for HttpStore {
             let t = r.below(n_torrents as u64) as u8;
             let v6 = r.chance(500);
             for h in 0..size {
-                ops.push(Op::Ann { t, v6, h: 100 + h, port: 2000, ev: 1, left: if r.chance(300) { 0 } else { 5 }, want: None, pid: (h % 200) as u8 });
+                ops.push(Op::Ann { t, v6, ac: 0, h: 100 + h, port: 2000, ev: 1, left: if r.chance(300) { 0 } else { 5 }, want: None, pid: (h % 200) as u8 });
             }
             deadlines.push(now + max_peer_age as u64);
         }
@@ -434,7 +442,7 @@ impl Harness for HttpStore {
                         9 => Some((max_peers as u64).saturating_sub(1)),
                         _ => Some(r.range(1, 20)),
                     };
-                    ops.push(Op::Ann { t: r.below(n_torrents as u64) as u8, v6: r.chance(400), h: r.below(n_hosts as u64) as u16, port: *r.pick(&ports), ev, left, want, pid: r.below(8) as u8 });
+                    ops.push(Op::Ann { t: r.below(n_torrents as u64) as u8, v6: r.chance(400), ac: if r.chance(700) { 0 } else { r.range(1, 2) as u8 }, h: r.below(n_hosts as u64) as u16, port: *r.pick(&ports), ev, left, want, pid: r.below(8) as u8 });
                     if ev != 3 {
                         deadlines.push(now.saturating_add(max_peer_age as u64));
                     }
@@ -442,7 +450,7 @@ impl Harness for HttpStore {
                 1 => {
                     let n = r.range(0, 7) as usize;
                     let ts = (0..n).map(|_| r.below(n_torrents as u64 + 2) as u8).collect();
-                    ops.push(Op::Scr { v6: r.chance(400), ts });
+                    ops.push(Op::Scr { v6: r.chance(400), ac: if r.chance(700) { 0 } else { r.range(1, 2) as u8 }, ts });
                 }
                 2 => ops.push(Op::Clean),
                 _ => {
@@ -514,13 +522,13 @@ impl Harness for HttpStore {
                 break;
             }
             match op {
-                Op::Ann { t, v6, h, port, ev, left, want, pid } => {
+                Op::Ann { t, v6, ac, h, port, ev, left, want, pid } => {
                     if !ex.allowed(&info_hash(*t)) {
                         continue;
                     }
-                    ex.do_announce(*t, *v6, *h, *port, *ev, *left, *want, *pid, stats, false)
+                    ex.do_announce(*t, *v6, *ac, *h, *port, *ev, *left, *want, *pid, stats, false)
                 }
-                Op::Scr { v6, ts } => ex.do_scrape(*v6, ts, stats, &["C07"], "scrape-counts"),
+                Op::Scr { v6, ac, ts } => ex.do_scrape(*v6, *ac, ts, stats, &["C07"], "scrape-counts"),
                 Op::Clean => ex.do_clean(stats),
                 Op::Adv { secs } => {
                     let n = time::manual_ns() / 1_000_000_000 + secs;
@@ -571,15 +579,20 @@ impl Harness for HttpStore {
         }
         for (i, op) in scn.ops.iter().enumerate() {
             match op {
-                Op::Ann { t, v6, h, port, ev, left, want, pid } => {
+                Op::Ann { t, v6, ac, h, port, ev, left, want, pid } => {
                     if want.is_some() {
                         let mut s = scn.clone();
-                        s.ops[i] = Op::Ann { t: *t, v6: *v6, h: *h, port: *port, ev: *ev, left: *left, want: None, pid: *pid };
+                        s.ops[i] = Op::Ann { t: *t, v6: *v6, ac: *ac, h: *h, port: *port, ev: *ev, left: *left, want: None, pid: *pid };
                         out.push(s);
                     }
                     if *left > 1 {
                         let mut s = scn.clone();
-                        s.ops[i] = Op::Ann { t: *t, v6: *v6, h: *h, port: *port, ev: *ev, left: 1, want: *want, pid: *pid };
+                        s.ops[i] = Op::Ann { t: *t, v6: *v6, ac: *ac, h: *h, port: *port, ev: *ev, left: 1, want: *want, pid: *pid };
+                        out.push(s);
+                    }
+                    if *ac != 0 {
+                        let mut s = scn.clone();
+                        s.ops[i] = Op::Ann { t: *t, v6: *v6, ac: 0, h: *h, port: *port, ev: *ev, left: *left, want: *want, pid: *pid };
                         out.push(s);
                     }
                 }
@@ -591,12 +604,12 @@ impl Harness for HttpStore {
                     s.ops[i] = Op::Adv { secs: secs - 1 };
                     out.push(s);
                 }
-                Op::Scr { v6, ts } if ts.len() > 1 => {
+                Op::Scr { v6, ac, ts } if ts.len() > 1 => {
                     for k in 0..ts.len() {
                         let mut s = scn.clone();
                         let mut t2 = ts.clone();
                         t2.remove(k);
-                        s.ops[i] = Op::Scr { v6: *v6, ts: t2 };
+                        s.ops[i] = Op::Scr { v6: *v6, ac: *ac, ts: t2 };
                         out.push(s);
                     }
                 }
